@@ -35,6 +35,8 @@ func runC07(c *Ctx) {
 	checkMultilineGuard(c, "R07j")
 	c.Rule("R07l", ruleTextNativeOnly, 1)
 	checkNativeOnly(c, "R07l")
+	c.Rule("R07m", ruleTextBackslashBothWays, 1)
+	checkBackslashBothWays(c, "R07m")
 	c.Rule("R07k", ruleTextEnumValuesEscaped, 3)
 	checkEnumValuesEscaped(c, "R07k")
 	c.Rule("R07i", ruleTextDelimTables, 1)
@@ -259,6 +261,7 @@ func checkTemplatesDelim(c *Ctx) {
 // ---- R07b
 
 func checkComments(c *Ctx) {
+	safeCommentCtx = c
 	for _, pp := range []string{pMysql, pPostgres, pSqlite} {
 		c.AllFuncs(false, func(fi *FuncInfo) {
 			if fi.Pkg.PkgPath != pp {
@@ -339,6 +342,9 @@ func itoa(i int) string {
 	return itoa(i/10) + string(rune('0'+i%10))
 }
 
+// safeCommentCtx gives safeComment access to the declarations of module functions.
+var safeCommentCtx *Ctx
+
 func safeComment(info *types.Info, e ast.Expr, body ast.Node) (bool, string) {
 	if _, ok := stringConst(info, e); ok {
 		return true, ""
@@ -384,6 +390,31 @@ func safeComment(info *types.Info, e ast.Expr, body ast.Node) (bool, string) {
 					})
 					if allConst {
 						continue
+					}
+				}
+			}
+			// accepted: a call of a module function whose every return is a constant (the closure, given a name)
+			if ac, ok := arg.(*ast.CallExpr); ok && safeCommentCtx != nil {
+				if cf := calleeOf(info, ac); cf != nil {
+					if cfi := safeCommentCtx.FuncInfoOf(cf); cfi != nil && cfi.Decl.Body != nil {
+						allConst, nret := true, 0
+						ast.Inspect(cfi.Decl.Body, func(k ast.Node) bool {
+							if _, isLit := k.(*ast.FuncLit); isLit {
+								allConst = false
+							}
+							if r, ok := k.(*ast.ReturnStmt); ok {
+								nret++
+								for _, res := range r.Results {
+									if _, ok := stringConst(cfi.Info(), res); !ok {
+										allConst = false
+									}
+								}
+							}
+							return true
+						})
+						if allConst && nret > 0 {
+							continue
+						}
 					}
 				}
 			}
